@@ -24,7 +24,7 @@ ASSUMPTIONS = [
     "jaccard and forbes are not asserted when their denominator is zero.",
 ]
 REQUIRED_CLASSES = ["coincident-endpoint", "nested", "duplicate", "touches-0", "touches-end", "empty-set", "merge-distance>0", "pair", "minus-strand",
-                    "clip-out-of-bounds", "two-contigs", "set-absent-from-a-contig", "depth-over-127"]
+                    "clip-out-of-bounds", "two-contigs", "set-absent-from-a-contig", "depth-over-127", "clip-interval-wholly-outside"]
 BOUNDS = {"quick": "exhaustive: singles S<=6 (up to 3 intervals, all merge distances), pairs S<=5 (up to 2+2 intervals); 2000 sampled", "thorough": "exhaustive: singles S<=8, pairs S<=6 (2+2) and S<=4 (3+3); 20000 sampled (S<=300, up to 30 intervals)"}
 BUDGET_S = {"quick": 200, "thorough": 1500}
 
@@ -130,6 +130,8 @@ def classify(case):
         cl.append("merge-distance>0")
     if case.get("clip"):
         cl.append("clip-out-of-bounds")
+        if any(y <= 0 or x >= S for x, y in case["clip"]):
+            cl.append("clip-interval-wholly-outside")
     nontrivial = (len(a) >= 2 and any(c in cl for c in ("coincident-endpoint", "nested", "duplicate"))) or "touches-0" in cl or "touches-end" in cl
     return nontrivial, cl
 
@@ -186,6 +188,15 @@ def check(case, stats=None):
             if got != want:
                 out.append(Failure("C08:sort", {"expected": want, "actual": got}))
         unchanged("sort_intervals", tu, ref_u)
+        if a:
+            # the same table with its chromosome column encoded against a list of contig names (what a genome does to the tables it is given)
+            from bionumpy.encodings.string_encodings import StringEncoding
+            te = Interval(StringEncoding(["chr1", "chr10", "chr2"]).encode(chroms), np.array([x[0] for x in shuffled], dtype=int), np.array([x[1] for x in shuffled], dtype=int))
+            r = guard("sort_intervals", lambda: ar.sort_intervals(te))
+            if r is not None:
+                got = list(zip([["chr1", "chr10", "chr2"][int(c)] for c in np.asarray(r.chromosome.raw()).tolist()], r.start.tolist(), r.stop.tolist()))
+                if got != want:
+                    out.append(Failure("C08:sort:contig-names-encoded", {"expected": want, "actual": got}))
     # merge with every requested distance, on the same sorted object
     sa = sorted(a)
     ts = make(sa)
@@ -206,7 +217,7 @@ def check(case, stats=None):
         tc = make(raw)
         ref_c = snap(tc)
         r = guard("clip", lambda: pairs_of(iv.clip(tc, S)))
-        want = [(max(0, x), min(S, y)) for x, y in raw]
+        want = [(min(max(0, x), S), min(max(0, y), S)) for x, y in raw]        # (an interval wholly outside becomes an empty one at the nearer end)
         if r is not None and r != want:
             out.append(Failure("C08:clip", {"expected": want, "actual": r}))
         unchanged("clip", tc, ref_c)
@@ -374,6 +385,9 @@ def sampled_case(draw, Smax, nmax):
     if a:
         case["strands"] = "".join(draw(st.lists(st.sampled_from("+-"), min_size=1, max_size=6)))
         case["clip"] = [[x - draw(st.integers(0, 3)), y + draw(st.integers(0, 3))] for x, y in a[:6]]
+        if draw(st.booleans()):
+            d_, e_ = draw(st.integers(0, 3)), draw(st.integers(1, 4))
+            case["clip"] += [[S + d_, S + d_ + e_], [-d_ - e_, -d_]]          # wholly beyond either end
     if draw(st.booleans()):
         if draw(st.booleans()):
             # internally non-overlapping pair (the documented domain of the sweep functions)
